@@ -278,7 +278,14 @@ def job_single_reads(j):
     for phase in ('before-the-first-poll', 'after-a-poll'):
       if phase == 'after-a-poll':
         r.call(inv.read_runtime_data)
-      items = [('read_sensor', s.id_) for s in world.listed(inv)] + [('read_setting', s.id_) for s in inv.settings()]
+      # (listed once per phase: a change that makes sensors() grow with every call must not make this stage run for ever)
+      listed_now, settings_now = list(world.listed(inv)), list(inv.settings())
+      if len(listed_now) > 5000:
+          key = f'sensors()-is-stable/{cfg["family"]}'
+          out.setdefault(key, []).append(dict(key=key, clause='sensors()-is-stable', replay=dict(cfg=cfg, transport='udp', singles=True),
+                                              detail=dict(cause=f'sensors() lists {len(listed_now)} entries {phase}')))
+          break
+      items = [('read_sensor', s.id_) for s in listed_now] + [('read_setting', s.id_) for s in settings_now]
       for fn, sid in items:
         l0 = len(r.dev.log)
         with Probe() as p:
@@ -286,7 +293,7 @@ def job_single_reads(j):
         n += 1
         # the registers the request fetched contain the registers of a sensor / setting the object lists under this id
         reqs = [q for q in r.dev.log[l0:] if q.get('fn') == 3]
-        cands = [s for s in (world.listed(inv) if fn == 'read_sensor' else inv.settings()) if s.id_ == sid and refdec.size_of(s)]
+        cands = [s for s in (listed_now if fn == 'read_sensor' else settings_now) if s.id_ == sid and refdec.size_of(s)]
         if res1[0] == 'ok' and reqs and cands and ('C14', f'reads-inside-answer/{cfg["family"]}/{sid}') not in _known():
             lo, hi = reqs[-1]['reg'], reqs[-1]['reg'] + reqs[-1]['count'] - 1
             if not any(lo <= s.offset and s.offset + (refdec.size_of(s) + 1) // 2 - 1 <= hi for s in cands):
